@@ -42,6 +42,7 @@ type Frame struct {
 	funcWC    *writeConstraint
 	rangeStart map[*ssa.Range][2]*Term
 	guardTags  map[ssa.Value]*guardTag
+	panics     []*State // states in which a callee / callback panicked (to be handled by this frame's defers)
 }
 
 type deferRec struct {
@@ -223,6 +224,33 @@ func (fr *Frame) run(st0 *State, params []Val) (*State, []Val) {
 	fr.entry = st0.clone()
 	fr.order = rpo(fn)
 	fr.execBlockList(fr.order, fn.Blocks[0], st0.clone(), nil)
+	// panic edges: a panic raised below this frame runs the frame's deferred calls; if one of them recovers,
+	// execution continues in the function's recover block (named results are returned as they are)
+	for len(fr.panics) > 0 {
+		ps := fr.panics[0]
+		fr.panics = fr.panics[1:]
+		if !fr.recovers() {
+			if fr.parent != nil {
+				fr.parent.panics = append(fr.parent.panics, ps)
+			}
+			continue
+		}
+		rv := fc.sc.Fresh("recovered", SIface)
+		fc.sc.Assert(Gt(ITag(rv), IntLit(0)))
+		fr.recovered = rv
+		fr.runDefers(nil, ps)
+		fr.recovered = nil
+		if fn.Recover != nil {
+			fr.execBlock(fn.Recover, ps)
+		} else {
+			var res []Val
+			rt := fn.Signature.Results()
+			for i := 0; i < rt.Len(); i++ {
+				res = append(res, fc.zeroVal(rt.At(i).Type()))
+			}
+			fr.rets = append(fr.rets, retRec{ps, res})
+		}
+	}
 	// merge returns
 	if len(fr.rets) == 0 {
 		// function never returns normally
@@ -1378,8 +1406,48 @@ func (fr *Frame) execSlice(in *ssa.Slice, st *State) {
 	}
 }
 
+// recovers: does one of this frame's deferred closures call recover()?
+func (fr *Frame) recovers() bool {
+	for _, d := range fr.defers {
+		var f *ssa.Function
+		if mc, ok := d.call.Value.(*ssa.MakeClosure); ok {
+			f = mc.Fn.(*ssa.Function)
+		} else if sf := d.call.StaticCallee(); sf != nil {
+			f = sf
+		}
+		if f == nil {
+			continue
+		}
+		for _, b := range f.Blocks {
+			for _, in := range b.Instrs {
+				if c, ok := in.(*ssa.Call); ok {
+					if bi, ok := c.Call.Value.(*ssa.Builtin); ok && bi.Name() == "recover" {
+						return true
+					}
+				}
+			}
+		}
+	}
+	return false
+}
+
+// somebodyRecovers: this frame or one of its callers (inlining chain) has a recovering defer.
+func (fr *Frame) somebodyRecovers() bool {
+	for f := fr; f != nil; f = f.parent {
+		if f.recovers() {
+			return true
+		}
+	}
+	return false
+}
+
 func (fr *Frame) doPanic(in *ssa.Panic, st *State) {
 	fc := fr.fc
+	if fr.somebodyRecovers() {
+		// an explicit panic under a recovering frame is a control transfer, not an error
+		fr.panics = append(fr.panics, st.clone())
+		return
+	}
 	// explicit panic: must be unreachable unless the contract allows it
 	if fr.spec != nil && fr.depth == 0 {
 		if cs := fr.spec.ClausesOf("panics"); len(cs) > 0 {
